@@ -52,6 +52,21 @@ def run(ctx):
 
 
 def replay(ctx, path):
-    print(open(path).read())
-    print("re-run ./check %s quick with the same VERIF_SEED: histories are deterministic for a seed" % ctx.prop)
-    raise SystemExit(2)
+    import json
+    import subprocess
+    j = json.load(open(path))
+    hs = j.get("case", {}).get("history_seed")
+    if not hs:
+        print(open(path).read())
+        raise SystemExit(2)
+    mode = {"C01": "c01", "C12": "c12", "C13": "c13"}[ctx.prop]
+    b = daemon.build(ctx)
+    p = subprocess.run([b, mode, "--history", hs, "--count", "1", "--tick", "4000000", "--replays", ctx.tmp], stdout=subprocess.PIPE, text=True, timeout=600)
+    r = json.loads(p.stdout)
+    for v in r["violations"][:5]:
+        print("  violation: sig=%s %s" % (v["sig"], v["detail"]))
+    if r["violations"]:
+        print("VIOLATION property=%s replay=%s" % (ctx.prop, path))
+        raise SystemExit(1)
+    print("history %s: no violation on this tree" % hs)
+    raise SystemExit(0)
